@@ -3,7 +3,7 @@ import GoaktVerif.Model.C15
 import GoaktVerif.Spec.C15
 
 /-
-C15 driver:  ask | prog0 ; prog1 ; … | schedule      ops: a<k> (Ask with request id k), h (dequeue + Response)
+C15 driver:  ask <asis|nopool|fixed> | prog0 ; prog1 ; … | schedule      ops: a<k> (Ask with request id k), h (dequeue + Response)
 With N programs, schedule entry t < N steps thread t, entry N+i is the deadline of caller i.
 `CAS:responseClosed` and the send of `Response` are one step here, as in the instrumented code.
 -/
@@ -28,8 +28,14 @@ def flags (l : List Bool) : String :=
 def machine : Machine where
   Cfg := Model.C15.Cfg
   init := fun cfg progs =>
-    if cfg ≠ "ask" then none
-    else (progs.mapM (fun (p : List String) => p.mapM parseOp)).map (Model.C15.init true)
+    let mode? : Option Mode := match words cfg with
+      | ["ask", "asis"] => some .asIs
+      | ["ask", "nopool"] => some .noPool
+      | ["ask", "fixed"] => some .fixed
+      | _ => none
+    match mode?, progs.mapM (fun (p : List String) => p.mapM parseOp) with
+    | some m, some ps => some (Model.C15.init m ps)
+    | _, _ => none
   nthreads := fun c => 2 * c.threads.length
   done := fun c t =>
     let i := if t < c.threads.length then t else t - c.threads.length
